@@ -422,6 +422,8 @@ def _payload(m, lv, bi, b, payload, nprng):
                     flatc = comp.reshape(-1, order="F")
                     for v in (-1.0, 1.0e30, -1.0e30, 1.7976931348623157e308, 3.5e38, -3.5e38, 0.0):
                         flatc[int(nprng.integers(0, n))] = v
+                if np.isnan(comp).all():      # no all-NaN box component (no canonical min/max row), whatever was there before
+                    comp = np.array(nprng.standard_normal(comp.shape), order="F")
                 arr[..., f] = comp
         return arr
     if payload == "extreme":
